@@ -943,7 +943,8 @@ def _resolve_action_conflicts(
                             for idx, scope_action_uid in enumerate(scope_action_uids):
                                 if scope_action_uid == competing_event.action_uid:
                                     scope_action_uids[idx] = _action_uid
-                        del state.actions[competing_event.action_uid]
+                        # Co-winners that already share one action drop it only once
+                        state.actions.pop(competing_event.action_uid, None)
 
                     advancing_heads.append(head)
                     log.info(
